@@ -12,7 +12,7 @@ pub struct C09 {
 
 impl C09 {
     pub fn new(tier: Tier) -> C09 {
-        C09 { sets: hl_sets(&Bounds { t: tier.pick(5, 6), q: tier.pick(4, 5), words: tier.pick(2, 3), corpus: true, pairs: false, fams: vec![1, 2, 4, 5, 7, 8, 9] }) }
+        C09 { sets: hl_sets(&Bounds { t: tier.pick(5, 6), q: tier.pick(4, 5), words: tier.pick(2, 3), corpus: true, pairs: false, fams: vec![1, 2, 3, 4, 5, 7, 8, 9] }) }
     }
 }
 
